@@ -4,6 +4,8 @@ use kvc::util::Opts;
 mod world;
 mod c23;
 mod c24;
+mod c25;
+mod c50;
 
 fn main() {
     let args: Vec<String> = std::env::args().collect();
@@ -15,6 +17,9 @@ fn main() {
     let rc = match args[1].as_str() {
         "c23" => c23::run(&opts),
         "c24" => c24::run(&opts),
+        "c25" => c25::run(&opts),
+        "c50" => c50::run(&opts),
+        "acp-extract" => c25::extract(&opts),
         other => {
             eprintln!("unknown subcommand {other}");
             2
